@@ -1,4 +1,4 @@
-import ChythonModel.Model.SmartsParse
+import ChythonModel.Model.SmartsFull
 /-!
 # C08 driver — line protocol (all arguments are ints; strings travel as code points)
 
@@ -14,6 +14,7 @@ import ChythonModel.Model.SmartsParse
 * `lab <mol> <nrings> (<len> <atom>*len)*`        → `calc_labels`: per atom `id nb het hyb eh k r*k deg b*deg` joined by ` ; `
 * `qp <cp>*`                                      → `_query_parse`
 * `sm <nrad> <rad>* <cp>*`                        → `smarts()` outcome + inner error kind
+* `sf <nrad> <rad>* <cp>*`                        → `smarts()` on the full syntax (branches, closures, plain atoms)
 * `m1 <ncp> <cp>* <mol> <nrings> …`               → atoms matched by the single-atom SMARTS (sorted)
 * `m2 <ncp> <cp>* <mol> <nrings> …`               → ordered atom pairs matched by a two-atom SMARTS
 -/
@@ -268,6 +269,11 @@ def handle (line : String) : String :=
            let s := chars cps
            showOutcome (smartsInner s (nats rad)) (smartsModel s (nats rad))
          | none => "error sm")
+      | "sf" =>
+        (match takeList xs with
+         | some (rad, cps) =>
+           showOutcome (smartsFullInner (nats cps) (nats rad)) (smartsFull (nats cps) (nats rad))
+         | none => "error sf")
       | "m1" =>
         (match takeList xs with
          | some (cps, rest) =>
